@@ -733,7 +733,8 @@ func (s *Server) Invoke(responseWriter http.ResponseWriter, invoke *interop.Invo
 	case err = <-releaseErrChan:
 		log.Debug("Invoke() release error")
 	case <-releaseSuccessChan:
-		s.Release()
+		// The reservation was already released by AwaitRelease (or by the reset):
+		// releasing here again could release the reservation of the next caller.
 		log.Debug("Invoke() success")
 	}
 
